@@ -258,6 +258,8 @@ def run_case_copula(tid, kind, mode, dates, per_interval, eps, sigmas, rng):
 
                 def reset_sampling_cost(self):
                     pass
+            if not hasattr(proc, "_uniform"):
+                raise AttributeError("'CouplingProcessLevyCopula' object has no attribute '_uniform'")
             proc._uniform = U25()
             normal.count = 0
             proc.pre_computation(mc_paths=1, product=product)
